@@ -121,9 +121,14 @@ CHECKS["C09"] = dict(
         "recursion path are distinct; termination by structural recursion on the nesting budget the (repaired) C code enforces, and the limit can only turn "
         "an answer into NOTIMPL, never into a different answer. Tie: random systems (every method kind in every slot, random maps, self- and mutually "
         "referential roots, every capability mask and source space) through the real addrxlat_op/fulladdr_conv with a counting callback and a depth "
-        "monitor, against the model and an independent first-match composition; chain tables regex-extracted from sys.c are cross-checked.",
-   note=TB + "The 4-slot read cache is treated as transparent for a deterministic get_page (observed, not proved here); custom methods, error messages, "
-        "re-entrant get_page callbacks and unaligned table reads are outside the model.",
+        "monitor, against the model and an independent first-match composition; chain tables regex-extracted from sys.c are cross-checked. "
+        "Round 2: ADDRXLAT_CUSTOM methods whose callback finishes in its first step in a space of its own choice / leaves a linear level / fails are "
+        "part of the step.c model (walk_custom_eq_spec) and of every generator; get_cache_buf with a re-entrant get-page callback is modelled "
+        "(Kdf.Model.RCache: slot search, LRU recycling incl. the slot in progress, the ptr==NULL guard, the MAX_READ_NESTING bound of the repaired "
+        "code) with read_nesting_bounded / read_hit_no_callback / read_self_fetch_detected and tied through direct reads after 0..6 earlier reads.",
+   note=TB + "Inside op/conv the 4-slot read cache is treated as transparent for a deterministic non-re-entrant get_page (observed, not proved here); "
+        "whole conversions under a re-entrant get-page callback are checked by monitors only (termination, nesting bound, exactly-once, caps); "
+        "multi-level custom methods, error messages and unaligned table reads are outside the model.",
    technique="Lean 4 proof (op = first-match composition; exactly-once; bounded nesting) + differential correspondence", design="§6 C09")
 CHECKS["C01"] = dict(
    text="Partial by design: proved for the lookup logic, observed for the rest. Lean proofs: the LKCD run-length decoder is total (never reads past src, "
